@@ -35,6 +35,39 @@ CLAIM = {
 }
 
 
+def _module_callees(q, b):
+    """same-module private helpers that b calls (other than itself): {name: body}"""
+    mod = b["key"].rsplit("::", 2)[0] if "{impl#" in b["key"] else b["key"].rsplit("::", 1)[0]
+    out = {}
+    for key, (name, cb) in U.local_callees(q, b["body"]).items():
+        if key != b["key"] and key.startswith(mod + "::"):
+            out[name] = cb
+    return out
+
+
+def _roles(q, R, rid):
+    """{extend_one, contract_one, map} -> (name, body) found through the calls, names only for the public entry points."""
+    roles = {}
+    for pub, role in (("extend_inner_class_names", "extend_one"), ("contract_inner_class_names", "contract_one")):
+        b = q.fn(pub, impl_ty="quill::tree::mappings::Mappings")
+        if not b:
+            continue
+        cs = _module_callees(q, b)
+        if len(cs) == 1:
+            roles[role] = list(cs.items())[0]
+    if "extend_one" in roles:
+        cs = _module_callees(q, roles["extend_one"][1])
+        if len(cs) == 1:
+            roles["map"] = list(cs.items())[0]
+    return roles
+
+
+def _fill(x, roles):
+    for k, (name, _) in roles.items():
+        x = x.replace("{%s}" % k, name)
+    return x
+
+
 def run(F, R, tier):
     with open(SPEC) as f:
         spec = json.load(f)
@@ -58,6 +91,11 @@ def r11_1(q, R, spec):
     for fn in ("extend_inner_class_names", "contract_inner_class_names"):
         cfg = dict(common)
         cfg.update(spec["rebuild"][fn])
+        roles = _roles(q, R, rid)
+        role = "extend_one" if fn.startswith("extend") else "contract_one"
+        if not R.anchor(rid, "%s calls one private per-class helper of its module" % fn, role in roles):
+            continue
+        cfg["transforms"] = {k: _fill(v, roles) for k, v in cfg["transforms"].items()}
         b = q.fn(fn, impl_ty="quill::tree::mappings::Mappings")
         if not R.anchor(rid, "fn Mappings::%s" % fn, b) or not R.anchor(rid, "%s parameters" % fn, len(b["params"]) == len(cfg["params"]), b["sp"]):
             continue
@@ -104,9 +142,11 @@ def r11_2(q, R, spec):
                 "src, b) with (src, b) = (slot 0, slot ns); contract: names[ns] = innermost simple name of self[ns]; `map` recurses "
                 "on the inner-class parent of the source name and joins with from_inner_class; a missing outer class is an error")
     # ---- extend_inner_class_name
+    roles = _roles(q, R, rid)
     se = spec["extend_one"]
-    b = q.fn("extend_inner_class_name")
-    if R.anchor(rid, "fn Names::extend_inner_class_name", b) and R.anchor(rid, "extend_inner_class_name parameters", len(b["params"]) == 3, b["sp"]):
+    b = roles.get("extend_one", (None, None))[1]
+    if R.anchor(rid, "per-class helper of extend_inner_class_names", b) and R.anchor(rid, "extend per-class helper parameters", len(b["params"]) == 3, b["sp"]) \
+            and R.anchor(rid, "recursive naming helper called by the extend per-class helper", "map" in roles, b["sp"]):
         nz = U.Norm(b, se["params"])
         r = _copy_and_single_write(R, rid, "extend", b, nz, se)
         if r:
@@ -115,7 +155,7 @@ def r11_2(q, R, spec):
             l, rr = nz.term(a["l"]), nz.term(a["r"])
             R.inst(rid, "extend:writes-slot-of-namespace", l == U.parse(se["target"], env), sp=a["sp"], expect=U.show(U.parse(se["target"], env)),
                    got=U.show(l), detail="the written place is the second component of get_mut_with_src(namespace)")
-            R.inst(rid, "extend:value", rr == U.parse(se["value"], env), sp=a["sp"], expect=U.show(U.parse(se["value"], env)), got=U.show(rr),
+            R.inst(rid, "extend:value", rr == U.parse(_fill(se["value"], roles), env), sp=a["sp"], expect=U.show(U.parse(_fill(se["value"], roles), env)), got=U.show(rr),
                    detail="map(mappings, namespace, <source name = slot 0>, <current name in the namespace>)")
             conds = U.cond_terms(nz, b["body"], a)
             R.inst(rid, "extend:only-when-named", conds == [("iflet", U.parse(se["condition"], env), True)], sp=a["sp"],
@@ -135,13 +175,13 @@ def r11_2(q, R, spec):
         guard = U.parse(sg["refuse_first"], env)
         oks = [n for n in H.walk(b["body"]) if n.get("k") == "tuple" and nz.term(n) == want]
         conds = U.cond_terms(nz, b["body"], oks[0]) if len(oks) == 1 else []
-        R.inst(rid, "get_mut_with_src:first-namespace-refused", len(oks) == 1 and _refused(conds, guard), sp=b["sp"],
+        R.inst(rid, "get_mut_with_src:first-namespace-refused", len(oks) == 1 and U.holds_at(conds, guard, False), sp=b["sp"],
                expect="!if " + U.show(guard), got=U.show_conds(conds),
                detail="namespace 0 (the key namespace) must not be handed out for writing")
     # ---- contract_inner_class_name
     sc = spec["contract_one"]
-    b = q.fn("contract_inner_class_name")
-    if R.anchor(rid, "fn Names::contract_inner_class_name", b) and R.anchor(rid, "contract_inner_class_name parameters", len(b["params"]) == 2, b["sp"]):
+    b = roles.get("contract_one", (None, None))[1]
+    if R.anchor(rid, "per-class helper of contract_inner_class_names", b) and R.anchor(rid, "contract per-class helper parameters", len(b["params"]) == 2, b["sp"]):
         nz = U.Norm(b, sc["params"])
         r = _copy_and_single_write(R, rid, "contract", b, nz, sc)
         if r:
@@ -170,9 +210,9 @@ def r11_2(q, R, spec):
         U.check_fn_result(R, rid, "Names::index", ib, spec["index_mut"]["params"], spec["index_mut"]["result"])
     # ---- map / get_class_name
     sm = spec["map"]
-    b = q.fn("map", within="quill::action::extend_inner_class_names")
-    if R.anchor(rid, "fn extend_inner_class_names::map", b):
-        U.check_fn_result(R, rid, "map:recursion", b, sm["params"], sm["result"], lets=sm["let"], detail=sm["doc"])
+    b = roles.get("map", (None, None))[1]
+    if R.anchor(rid, "recursive naming helper (called from the extend per-class helper)", b):
+        U.check_fn_result(R, rid, "map:recursion", b, sm["params"], _fill(sm["result"], roles), lets=sm["let"], detail=sm["doc"])
         gc = U.calls_named(b["body"], "get_class_name")
         R.inst(rid, "map:missing-outer-class-is-error", len(gc) == 1 and U.is_tried(b["body"], gc[0]), sp=b["sp"],
                detail="`mappings.get_class_name(parent, namespace)?`")
@@ -210,9 +250,13 @@ def r11_3(dk, R, spec):
         none = ("ctor", "None", ())
         guard = None
         shape_ok = False
-        if res and res[0] == "case" and res[1] == cut:
+        some = None
+        if res and res[0] == "omap" and res[1] == cut:
+            arms, some = {"_": none}, res[2]
+        elif res and res[0] == "case" and res[1] == cut:
             arms = dict(res[2])
             some = arms.get("Some")
+        if some is not None:
             if arms.get("_") == none and some is not None:
                 if some[0] == "if" and some[2] == pair and some[3] == none:
                     guard, shape_ok = some[1], True
